@@ -4,7 +4,7 @@ from __future__ import annotations
 
 import numpy as np
 
-from .. import gen, monitors
+from .. import derive, gen, monitors
 
 PID = "C07"
 ANCHORS = ["scores.py:Scores.auc"]
@@ -54,7 +54,8 @@ def cases(ctx):
         lo, up = sorted(float(x) for x in rng.choice(cands, 2))
         if rng.random() < 0.05:
             up = lo
-        yield {"pos": pos, "neg": neg, "ep": ep, "en": en, "sc": sc, "ec": ec, "kind": kind, "lower": lo, "upper": up, "mid_u": float(rng.uniform())}
+        yield {"pos": pos, "neg": neg, "ep": ep, "en": en, "sc": sc, "ec": ec, "kind": kind, "lower": lo, "upper": up, "mid_u": float(rng.uniform()),
+               "via": str(rng.choice(derive.VIAS)), "_seed": int(rng.integers(1 << 31))}
 
 
 def execute(ctx, case):
@@ -63,7 +64,8 @@ def execute(ctx, case):
     sess = ctx.sess
     pos, neg, ep, en, sc, ec = case["pos"], case["neg"], case["ep"], case["en"], case["sc"], case["ec"]
     lo, up = case["lower"], case["upper"]
-    s = Scores(pos, neg, nb_easy_pos=ep, nb_easy_neg=en, score_class=sc, equal_class=ec)
+    with monitors.oracle_scope_ctx():
+        s = derive.build(pos, neg, ep, en, sc, ec, case.get("via", "ctor"), case.get("_seed", 0))
     a_full = s.auc()  # all judged by M-auc
     a = s.auc(lo, up)
     s.auc(lo, up, y_axis="fnr")
